@@ -23,10 +23,16 @@ COINS = ["BTC", "BCH", "LTC", "BTG"]
 def signed_scenario(coin, kind, ht, seed, few_outs=False):
     m, n = (2, 3) if "ms" in kind else (1, 1)
     inputs = [(kind, m, n, 0), (kind, m, n, 4), ("p2pkh", 1, 1, 9)]
-    sc = c05.Scenario(coin, inputs, seed, ht)
+    hts = list(ht) if isinstance(ht, (list, tuple)) else [ht]
+    sc = c05.Scenario(coin, inputs, seed, hts[0])
     if few_outs:
         del sc.tx.txs_out[2:]          # inputs 2 has no matching output: SIGHASH_SINGLE corner
-    sc.do_pass(list(range(0, 12)), "lookup", None)
+    if len(hts) == 1:
+        sc.do_pass(list(range(0, 12)), "lookup", None)
+    else:
+        # cosigners with different hash types: first keys of each input with hts[0], second keys with hts[1]
+        sc.do_pass([0, 4, 9], "lookup", None, hts[0])
+        sc.do_pass([1, 5], "lookup", None, hts[1])
     return sc
 
 
@@ -35,7 +41,7 @@ class Signed(object):
     _cache = {}
 
     def __init__(self, coin, kind, ht, seed, few=False):
-        key = (coin, kind, ht, seed, few)
+        key = (coin, kind, tuple(ht) if isinstance(ht, (list, tuple)) else ht, seed, few)
         if key not in self._cache:
             sc = signed_scenario(coin, kind, ht, seed, few)
             self._cache[key] = (sc.tx.as_bin(), list(sc.spent), list(sc.p2s))
@@ -244,6 +250,15 @@ class Mutations(Driver):
                     yield dict(coin=coin, kind=kind, ht=ht, few=False)
                     if kind in ("p2pkh", "p2wpkh", "p2sh_ms", "p2wsh_ms"):
                         yield dict(coin=coin, kind=kind, ht=ht, few=True)
+        # cosigners of one multisig input using different hash types (each signature commits by its own type)
+        for coin in self.coins:
+            for kind in ("ms", "p2sh_ms", "p2wsh_ms") if self.tier == "quick" else c05.MS_KINDS:
+                for hts in ([1, 2], [2, 1], [1, 3], [3, 0x81], [0x82, 1]):
+                    yield dict(coin=coin, kind=kind, ht=hts, few=False)
+        # Groestlcoin (single SHA256 digests, its own overrides of the BIP143 sub-hashes)
+        for kind in ("p2pkh", "p2wpkh", "p2wsh_ms") if self.tier == "quick" else KINDS:
+            for ht in (1, 3, 0x82):
+                yield dict(coin="GRS", kind=kind, ht=ht, few=False)
 
     def execute(self, u):
         try:
@@ -397,7 +412,7 @@ class Histories(Driver):
         try:
             base = verdicts(tx)
             classes = set()
-            for mi in case["seq"]:
+            for pos, mi in enumerate(case["seq"]):
                 saved = (tx.version, tx.lock_time, [(i.previous_hash, i.previous_index, i.script, i.sequence, list(i.witness)) for i in tx.txs_in],
                          [(o.coin_value, o.script) for o in tx.txs_out], list(tx.unspents), list(tx.txs_in), list(tx.txs_out))
                 apply_mutation(tx, self.MU[mi])
@@ -420,7 +435,7 @@ class Histories(Driver):
                         for to, s in zip(tx.txs_out, saved[3]):
                             to.coin_value, to.script = s
                         tx.unspents = saved[4]
-                        if verdicts(tx) != base and all(m % 2 == 0 for m in case["seq"][:case["seq"].index(mi) + 1]):
+                        if verdicts(tx) != base and all(m % 2 == 0 for m in case["seq"][:pos + 1]):
                             return BAD("stale-verdict", "verdicts after undo equal the original %r" % (base,), repr(verdicts(tx)), clause="undo", n=nsteps)
                     else:
                         break
